@@ -360,6 +360,17 @@ structure Hdr where
   nbytes : Int := 0
 deriving Repr, DecidableEq, Inhabited
 
+/-- what CONNECT_V2 (all of id, uniqueness, pid) or CONNECT (the header's source id) writes into the module record
+    before anything is checked -/
+def setReq (cfg : Cfg) (buf : List Nat) (h : Hdr) (x : Module) : Module :=
+  if h.mtype == cfg.mtConnectV2 then
+    { x with modId := bufI16 buf 6, unique := bufI16 buf 4 == 0, pid := bufI32 buf 8 }
+  else { x with modId := h.src }
+
+/-- …plus the fields common to both versions, and the decoded name -/
+def setAll (cfg : Cfg) (buf : List Nat) (h : Hdr) (nm : List Nat) (x : Module) : Module :=
+  { setReq cfg buf h x with name := nm, isLogger := bufI16 buf 0 == 1, isDaemon := bufI16 buf 2 == 1 }
+
 /-- `connect_module`; returns the state and whether the module was accepted -/
 def connectModule (cfg : Cfg) (s : State) (u : Nat) (h : Hdr) : State × Bool :=
   let m := lookupMod s u
@@ -368,17 +379,14 @@ def connectModule (cfg : Cfg) (s : State) (u : Nat) (h : Hdr) : State × Bool :=
   let v2 := h.mtype == cfg.mtConnectV2
   -- fields taken from the frame
   let nameR : Option (List Nat) := if v2 then cstr s.buf 12 32 else some m.name
-  let m1 : Module :=
-    if v2 then { m with modId := bufI16 s.buf 6, unique := bufI16 s.buf 4 == 0, pid := bufI32 s.buf 8 }
-    else { m with modId := h.src }
   match nameR with
   | none =>
-    let s := s.upd u (fun _ => m1)
+    let s := s.upd u (setReq cfg s.buf h)
     let s := logAt cfg fwd 40 s
     (removeModule cfg fwd s u, false)
   | some nm =>
-    let m2 : Module := { m1 with name := nm, isLogger := bufI16 s.buf 0 == 1, isDaemon := bufI16 s.buf 2 == 1 }
-    let s := s.upd u (fun _ => m2)
+    let m2 := setAll cfg s.buf h nm m
+    let s := s.upd u (setAll cfg s.buf h nm)
     if m2.modId != 0 then
       if m2.modId < 1 || m2.modId > cfg.dynStart then
         let s := logAt cfg fwd 40 s
@@ -399,28 +407,26 @@ def connectModule (cfg : Cfg) (s : State) (u : Nat) (h : Hdr) : State × Bool :=
         let s := s.upd u (fun m => { m with modId := id, connected := true })
         ({ s with loggers := if m2.isLogger then setAdd s.loggers u else s.loggers }, true)
 
+/-- replace module `u`'s `subs` -/
+def State.setSubs (s : State) (u : Nat) (l : List Int) : State := s.upd u (fun m => { m with subs := l })
+
 /-- `add_subscription` / `resume_subscription` (after the fix: clear first, then add) -/
 def addSub (cfg : Cfg) (s : State) (u : Nat) (t : Int) : State :=
   let m := lookupMod s u
   if t == cfg.allTypes then
-    let idx := m.subs.foldl (fun i t' => idxDiscard i t' u) s.idx
-    let s := { s with idx := idxAdd idx t u }
-    s.upd u (fun m => { m with subs := [t] })
+    ({ s with idx := idxAdd (m.subs.foldl (fun i t' => idxDiscard i t' u) s.idx) t u }).setSubs u [t]
   else if m.subs.contains cfg.allTypes then s
   else
-    let s := { s with idx := idxAdd s.idx t u }
-    s.upd u (fun m => { m with subs := if m.subs.contains t then m.subs else m.subs ++ [t] })
+    ({ s with idx := idxAdd s.idx t u }).setSubs u (if m.subs.contains t then m.subs else m.subs ++ [t])
 
 /-- `remove_subscription` / `pause_subscription` -/
 def removeSub (cfg : Cfg) (s : State) (u : Nat) (t : Int) : State :=
   let m := lookupMod s u
   if t == cfg.allTypes then
-    let idx := idxDiscard s.idx t u
-    let idx := m.subs.foldl (fun i t' => idxDiscard i t' u) idx
-    ({ s with idx := idx }).upd u (fun m => { m with subs := [] })
+    ({ s with idx := m.subs.foldl (fun i t' => idxDiscard i t' u) (idxDiscard s.idx t u) }).setSubs u []
   else if m.subs.contains cfg.allTypes then s
   else
-    ({ s with idx := idxDiscard s.idx t u }).upd u (fun m => { m with subs := m.subs.filter (· != t) })
+    ({ s with idx := idxDiscard s.idx t u }).setSubs u (m.subs.filter (· != t))
 
 def sendInfo (cfg : Cfg) (s : State) (u : Nat) : State :=
   match s.find u with
@@ -580,28 +586,37 @@ def readAll (cfg : Cfg) : List Read → State → State
   | [], s => s
   | r :: rest, s => readAll cfg rest (readOne cfg s r)
 
-def step (cfg : Cfg) (s : State) (r : Round) : State :=
-  if s.crashed.isSome then s else
+/-- clock and environment changes at the start of a round -/
+def envStep (s : State) (r : Round) : State :=
   -- a failure mode can only be given to a connection that exists when the round starts
-  let s := { s with now := s.now + r.dt,
-                    fail := (r.failSet.filter (·.1 ≤ s.nextUid)).foldl (fun fl p => setFail fl p.1 p.2) s.fail }
-  -- only connections that are in the table when `select` is called can be reported readable
-  let r := { r with reads := r.reads.filter (fun rd => (s.find rd.uid).isSome) }
-  let s :=
-    if r.accept || !r.reads.isEmpty then
-      let s :=
-        if r.accept then
-          let s := logAt cfg (fwdTop cfg) 20 s
-          let u := s.nextUid + 1
-          { s with nextUid := u, mods := s.mods ++ [{ uid := u }] }
-        else s
-      let live := s.mods.map (·.uid)
-      let s := { s with wlist := if r.reads.isEmpty then [] else r.writable.filter (live.contains ·) }
-      readAll cfg r.reads s
-    else s
+  { s with now := s.now + r.dt,
+           fail := (r.failSet.filter (·.1 ≤ s.nextUid)).foldl (fun fl p => setFail fl p.1 p.2) s.fail }
+
+/-- `accept()`: the log line comes before the new table entry -/
+def acceptStep (cfg : Cfg) (s : State) : State :=
+  let s := logAt cfg (fwdTop cfg) 20 s
+  { s with nextUid := s.nextUid + 1, mods := s.mods ++ [{ uid := s.nextUid + 1 }] }
+
+/-- the `if len(rlist) > 0:` block -/
+def ioStep (cfg : Cfg) (s : State) (accept : Bool) (writable : List Nat) (reads : List Read) : State :=
+  if accept || !reads.isEmpty then
+    let s := if accept then acceptStep cfg s else s
+    let live := s.mods.map (·.uid)
+    readAll cfg reads { s with wlist := if reads.isEmpty then [] else writable.filter (live.contains ·) }
+  else s
+
+/-- the periodic messages at the end of every round -/
+def ticks (cfg : Cfg) (s : State) : State :=
   let s := if cfg.timing && s.now - s.tTiming > 900 then { sendTiming cfg s with tTiming := s.now } else s
   let s := if s.now - s.tTraffic > 1000 then sendTraffic cfg s else s
   if s.now - s.tInfo > 5000 then sendActive cfg s else s
+
+def step (cfg : Cfg) (s : State) (r : Round) : State :=
+  if s.crashed.isSome then s else
+  let s := envStep s r
+  -- only connections that are in the table when `select` is called can be reported readable
+  let reads := r.reads.filter (fun rd => (s.find rd.uid).isSome)
+  ticks cfg (ioStep cfg s r.accept r.writable reads)
 
 def init (cfg : Cfg) : State :=
   let s : State := { mods := [{ uid := 0, name := "message_manager".toList.map (·.toNat), pid := cfg.mmPid,
